@@ -379,3 +379,45 @@ pub fn padded_tail(pad: u64, tail: &str) -> String {
     s.push_str(tail);
     s
 }
+
+/// Fragments repeated to counts around the usual size boundaries (255/256/257, 1024, 4096, u16):
+/// long inputs made of many small errors or many small statements, followed by a valid tail.
+const REPEAT_EXTRA: &[&str] = &[
+    "int ;", "x = ;", ") ;", "gate ;", "def f( ;", "h q", "1 2", "int[ x;", "} ", "{ ", "if ( ", "else ", "a b;", "@a\n", "pragma p\n",
+    "\"s\" ", "'s' ", "0x ", "1e ", "$ ", "§ ", "/* c */ ", "// c\n", "x;", "h q;", "int x = 1;", "[", "(", "let a = ;", "case 1 ",
+];
+const NESTING_UNITS: &[&str] = &["array", "mutable", "(", "{", "[", "-", "+", "if (", "=", "@", "inv", "pow", "#", ">", "*", ".", ":", "else", "if", "for", "while", "return", "measure", "let", "let a = ;", "case", "switch"];
+const REPEAT_COUNTS_QUICK: &[u64] = &[8, 100, 255, 256, 257, 300, 1024, 4096];
+const REPEAT_COUNTS_THOROUGH: &[u64] = &[8, 100, 127, 128, 255, 256, 257, 300, 511, 512, 1023, 1024, 4095, 4096, 16384, 65535, 65536, 65537];
+
+fn repeat_units() -> Vec<String> {
+    let mut v: Vec<String> = crate::mon::c01::small_alphabet().iter().map(|s| format!("{s} ")).collect();
+    v.extend(REPEAT_EXTRA.iter().map(|s| s.to_string()));
+    v
+}
+
+pub fn repeated_count(thorough: bool) -> u64 {
+    let c = if thorough { REPEAT_COUNTS_THOROUGH.len() } else { REPEAT_COUNTS_QUICK.len() };
+    (repeat_units().len() * c * 2) as u64
+}
+
+pub fn repeated_case(i: u64, thorough: bool) -> String {
+    let units = repeat_units();
+    let counts = if thorough { REPEAT_COUNTS_THOROUGH } else { REPEAT_COUNTS_QUICK };
+    let with_tail = i % 2 == 1;
+    let i = i / 2;
+    let u = &units[(i as usize) % units.len()];
+    let mut n = counts[(i as usize / units.len()) % counts.len()];
+    // units that open a nesting level stay within the nesting bound of DESIGN.md (256)
+    if NESTING_UNITS.contains(&u.trim()) {
+        n = n.min(250);
+    }
+    let mut s = String::with_capacity(u.len() * n as usize + 32);
+    for _ in 0..n {
+        s.push_str(u);
+    }
+    if with_tail {
+        s.push_str("\nqubit q; h q; int tail = 1;\n");
+    }
+    s
+}
